@@ -508,5 +508,45 @@ func stress(env *vh.Env, rep *vh.Report, rng *vh.Rng, fams []*family) {
 		if len(out.Machine) > 0 {
 			rep.Sample(map[string]interface{}{"machine_schedule": out.Machine[0], "driver": outs[nw]})
 		}
+		// the same schedules over the CodeModels of C09 (bucket array, order list, growing table) and C13
+		// (pointer heap) — what `C10.linked_maps_linearizable_wrt_dictionary` /
+		// `linked_list_linearizable_wrt_deque` are about
+		var cl, cexp []string
+		for i, m := range out.Machine {
+			switch {
+			case strings.HasPrefix(m, "XM "):
+				cl = append(cl, "XL "+m[3:])
+				cexp = append(cexp, "ok "+entryFactsToValues(out.MFacts[i]))
+			case strings.HasPrefix(m, "XD "):
+				cl = append(cl, "XLL "+m[3:])
+				cexp = append(cexp, "ok "+out.MFacts[i])
+			}
+		}
+		if len(cl) > 0 {
+			couts, err := vh.RunDriver(env.Driver, cl)
+			if err != nil {
+				vh.Die("driver: %v", err)
+			}
+			for i := range cl {
+				rep.Count("machine-schedules-on-code-models")
+				if couts[i] != cexp[i] {
+					rep.Fail("correspondence", "machine:code-model-schedule", "an observed history, scheduled on the mutex-object machine over the C09/C13 code model, is rejected or returns differently",
+						map[string]interface{}{"schedule": cl[i], "expected": cexp[i], "driver": couts[i]})
+				}
+			}
+			rep.Sample(map[string]interface{}{"code_model_schedule": cl[0], "driver": couts[0]})
+		}
 	}
+}
+
+// entryFactsToValues: the C09 code model returns only the value of a removed first/last entry:
+// `k:v` → `*:v` (`0:0` = nothing stays)
+func entryFactsToValues(facts string) string {
+	fs := strings.Split(facts, ";")
+	for i, f := range fs {
+		if j := strings.Index(f, ":"); j > 0 && f != "0:0" {
+			fs[i] = "*" + f[j:]
+		}
+	}
+	return strings.Join(fs, ";")
 }
